@@ -14,6 +14,7 @@ DECIDED = ("R1 TCP state machine extracted from the code (typestate on Tcb::stat
            "poll_accept are the only users of the ready queue; R6 the retransmit sweep covers every state the segmenter may "
            "transmit in (sibling state sets agree), so a lost FIN in LastAck cannot pin the entry.")
 NOT_DECIDED = "bounded-ticks reclamation as a number, behaviour under loss / reordering, address pairing of accepted sockets."
+DECIDED += "; R8 exhaustive scans (on_close, reap_closed, wake_all); R1 requires the SynReceived test to sample Tcb::state before the write to Closed (flow-sensitive)"
 ASSUMPTIONS = ["an fd with no shim handle and not on a listener's ready queue is closed by nobody (derived from creation sites)"]
 
 STATE = "turmoil_net::kernel::socket::Tcb::state"
